@@ -278,4 +278,92 @@ def directIndexes (s : St) (remote : Url → Bool) (loc : Url → OffIdx) : List
 /-- the rule of the code as it is (after the fix F19f) -/
 def skipReal : SkipRule := .localNotExist
 
+/-! ### the branch without a validator (`if !t.etagRequired` in `cacheTransport.RoundTrip`)
+
+Package downloads and key DISCOVERY (`(*APK).DiscoverKeys`: the repository's `apk-configuration` document, then the
+JWKS it points to) go through `a.cache.client(client, false)`: the request is answered from a file under the URL's own
+path when `os.Open(cacheFile)` succeeds — no ETag in the name, nothing is revalidated, ever — and otherwise handed to
+the network.  `Stores` says for which URLs that branch SAVES the answer of a miss under the URL's path: the code as it
+is saves nothing there (`storesReal`; packages are stored later, section by section under their content hashes, by
+`cachePackage`).  A URL class may only be stored on this branch when it is immutable (a `*.apk` is, by its name:
+name-version-release; a discovery document and a key set are not: keys rotate). -/
+
+abbrev Stores := Url → Bool
+
+structure PSt where
+  srv : List (Url × Body) := []      -- what the server serves / served, newest first
+  plain : List (Url × Body) := []    -- files under a URL's own path (newest first)
+  deriving Repr
+
+/-- what the server answers now for `u` (`none`: 404) -/
+def PSt.cur (s : PSt) (u : Url) : Option Body := s.srv.lookup u
+/-- `os.Open(cacheFile)` -/
+def PSt.file (s : PSt) (u : Url) : Option Body := s.plain.lookup u
+
+/-- the branch online: a file under the URL's path answers; a miss goes to the network and is saved iff `stores u` -/
+def plainFetch (stores : Stores) (s : PSt) (u : Url) : PSt × Option Body :=
+  match s.file u with
+  | some b => (s, some b)
+  | none =>
+    match s.cur u with
+    | none => (s, none)
+    | some b => (if stores u then { s with plain := (u, b) :: s.plain } else s, some b)
+
+/-- the branch offline: the file or an error -/
+def plainOffline (s : PSt) (u : Url) : Option Body := s.file u
+
+/-- the same request without the disk cache -/
+def plainDirect (s : PSt) (u : Url) : Option Body := s.cur u
+
+inductive PEv where
+  | publish (u : Url) (b : Body)   -- the server starts to serve `b` under `u` (a key rotation: a new JWKS body)
+  | get (u : Url)                  -- a request through the branch, online
+  deriving DecidableEq, Repr
+
+def pstep (stores : Stores) (s : PSt) : PEv → PSt
+  | .publish u b => { s with srv := (u, b) :: s.srv }
+  | .get u => (plainFetch stores s u).1
+
+/-- the answers of the requests of a history through the cache, in order -/
+def panswers (stores : Stores) : List PEv → PSt → List (Option Body)
+  | [], _ => []
+  | .get u :: rest, s => (plainFetch stores s u).2 :: panswers stores rest (pstep stores s (.get u))
+  | ev :: rest, s => panswers stores rest (pstep stores s ev)
+
+/-- the answers of the same requests without the disk cache -/
+def pdirect : List PEv → PSt → List (Option Body)
+  | [], _ => []
+  | .get u :: rest, s => plainDirect s u :: pdirect rest s
+  | .publish u b :: rest, s => pdirect rest { s with srv := (u, b) :: s.srv }
+
+/-- a history in which every URL of a stored class is immutable: what is published under it is what it serves already -/
+def PLegal (stores : Stores) : List PEv → PSt → Prop
+  | [], _ => True
+  | .publish u b :: rest, s =>
+    (stores u = true → ∀ b0, s.cur u = some b0 → b0 = b) ∧ PLegal stores rest (pstep stores s (.publish u b))
+  | ev :: rest, s => PLegal stores rest (pstep stores s ev)
+
+/-- the code as it is: a miss on this branch is never saved -/
+def storesReal : Stores := fun _ => false
+
+/-- `(*APK).DiscoverKeys` of one build: the memo of the cache object (`Cache.discoverKeys`, a `flightCache`: the
+successful answer per repository is kept as long as the object lives), else the discovery document `conf` and then
+the key set `jwks` through the branch; `none` = an error, which `fetchChainguardKeys` only logs -/
+def discover (stores : Stores) (s : PSt) (memo : Option Body) (conf jwks : Url) : PSt × Option Body :=
+  match memo with
+  | some k => (s, some k)
+  | none =>
+    match plainFetch stores s conf with
+    | (s1, none) => (s1, none)
+    | (s1, some _) => plainFetch stores s1 jwks
+
+/-- the same of an offline build -/
+def discoverOffline (s : PSt) (memo : Option Body) (conf jwks : Url) : Option Body :=
+  match memo with
+  | some k => some k
+  | none =>
+    match plainOffline s conf with
+    | none => none
+    | some _ => plainOffline s jwks
+
 end Apko.CacheGlue
